@@ -84,8 +84,21 @@ F('analyze_rules', r'constexpr void analyze_rules\(std::index_sequence<I\.\.\.>,
   [S(r'\(void\(analyze_rule<I>\(std::get<I>\(rule_tuple\), std::make_index_sequence<Rules::n>\{\}\)\), \.\.\.\);',
      'for (size_t I = 0; I < P_RULES; ++I) VX_RULES_LOOP { vx_step_analyze_rule(I); }', name='R21:pack expansion over I -> loop'),
    S(r'analyze_rule<root_rule_idx>\(detail::fake_root<value_type_t<root_nterm_type>>\{\}\(root\), std::index_sequence<0>\{\}\);', 'vx_step_analyze_rule(root_rule_idx);', name='abstract step: analyze_rule<root_rule_idx>'),
-   S(r'stdex::sort\(gi\.rule_infos, \[\]\(const auto& ri1, const auto& ri2\) \{ return ri1\.l_idx < ri2\.l_idx; \}\);', 'vx_step(VX_S_SORT);', name='abstract step: sort rule_infos by left side'),
+   S(r'stdex::sort\(gi\.rule_infos, \[\]\(const auto& ri1, const auto& ri2\) \{[^{}]*\}\);', 'vx_step(VX_S_SORT);', name='abstract step: sort rule_infos (the comparator is fragment vx_rule_order)'),
    S(r'make_nterm_rule_slices\(\);', 'vx_step(VX_S_SLICES);', name='abstract step: make_nterm_rule_slices')])
+SORT_CMP = r'stdex::sort\(gi\.rule_infos, \[\]\(const auto& ri1, const auto& ri2\) (\{[^{}]*\})\);'
+
+
+def sort_cmp_fragment(body):
+    m = re.search(SORT_CMP, body)
+    if not m:
+        raise Exception('analyze_rules: the comparator lambda of stdex::sort(gi.rule_infos, ...) not found')
+    return m.group(1)
+
+
+# the order stdex::sort (a stable sort, under contract in unit state_analyzer for any strict weak order) is asked to establish
+F('vx_rule_order', r'constexpr void analyze_rules\(std::index_sequence<I\.\.\.>, const root_nterm_type& root\)', 'bool vx_rule_order(const struct rule_info* ri1, const struct rule_info* ri2)',
+  [S(r'\bri([12])\.', r'ri\1->', min=0, name='R5:ri1/ri2')], fragment=sort_cmp_fragment)
 CTOR_STEPS = [S(r'auto seq_for_terms = std::make_index_sequence<std::tuple_size_v<term_tuple_type>>\{\};', '', name='R18:index_sequence object'),
               S(r'analyze_nterms\(std::make_index_sequence<std::tuple_size_v<nterm_tuple_type>>\{\}\);', 'vx_step(VX_S_NTERMS);', name='abstract step'),
               S(r'analyze_nterm\(detail::fake_root<value_type_t<root_nterm_type>>\{\}\);', 'vx_step(VX_S_FAKE_ROOT);', name='abstract step'),
